@@ -286,4 +286,30 @@ theorem Spaced_nth {R : Int} : ∀ (l : List Int) (a : Int), Spaced R a l →
       omega
 
 
+theorem emod_succ_lt (x R : Int) (hR : 0 < R) (h : x % R + 1 < R) : (x + 1) % R = x % R + 1 := by
+  have h0 : 0 ≤ x % R := Int.emod_nonneg x (by omega)
+  have hx : x + 1 = (x % R + 1) + R * (x / R) := by
+    have := Int.emod_add_mul_ediv x R
+    omega
+  rw [hx, Int.add_mul_emod_self_left]
+  exact Int.emod_eq_of_lt (by omega) h
+
+theorem emod_succ_wrap (x R : Int) (_hR : 0 < R) (h : x % R + 1 = R) : (x + 1) % R = 0 := by
+  have hx : x + 1 = R * (x / R + 1) := by
+    have := Int.emod_add_mul_ediv x R
+    rw [Int.mul_add, Int.mul_one]
+    omega
+  rw [hx, Int.mul_emod_right]
+
+/-- `n` rounds of "one tick passes, then `process`" -/
+def poll : Nat → List Op
+  | 0 => []
+  | n + 1 => .advance 1 :: .process :: poll n
+
+/-- the stamps of those `process` calls -/
+def pollStamps (t : Int) : Nat → List Int
+  | 0 => []
+  | n + 1 => (t + 1) :: pollStamps (t + 1) n
+
+
 end Ioflo.Exchange
